@@ -21,6 +21,8 @@ type NTSWorld struct {
 	SrvAddr  netip.AddrPort
 	SrvSock  *vnet.UDPConn
 	KEConns  int
+	// NTPPort is the port the key-exchange handler names for NTP (123 for the IP listener).
+	NTPPort int
 }
 
 // NewNTSWorld starts the listener and installs the dial hook.
@@ -33,7 +35,11 @@ func NewNTSWorld(w *world.World) *NTSWorld {
 			if err := tc.Handshake(); err != nil {
 				return
 			}
-			server.VerifHandleKeyExchangeTLS(context.Background(), w.Log, tc, 123, n.Provider)
+			port := n.NTPPort
+			if port == 0 {
+				port = 123
+			}
+			server.VerifHandleKeyExchangeTLS(context.Background(), w.Log, tc, port, n.Provider)
 		})
 		return nil
 	}
